@@ -175,14 +175,16 @@ def case_cr(pd, theta, phi, t_cr, pcr, T1c, T2c, T1t, T2t):
         want = cov_want(fs, ang, dt)
         if not np.abs(cov - want).max() <= 2e-6 * max(1.0, a):
             bad.append(f"covariance of the {name} sampler differs from the Ito isometry integral of f_i f_j by {np.abs(cov - want).max():.3e}")
-    if pd[0].startswith("constant"):
-        caps = capture(call, Inject(99, 0))
-        ts2, dt2 = grid(a, 300)
-        acc = quad_mat(lambda t: e1c ** 2 * (Ucr(theta * t / a, phi).conj().T @ K(P1, I2) @ Ucr(theta * t / a, phi))
-                       + e1t ** 2 * (Ucr(theta * t / a, phi).conj().T @ K(I2, P1) @ Ucr(theta * t / a, phi)), ts2, dt2)
-        err = float(np.abs(caps[0] - (-0.5 * acc)).max())
-        if not err <= 2e-4 * a * (e1c ** 2 + e1t ** 2) + 1e-12:
-            bad.append(f"CR drift (constant pulse) differs from -1/2 int (L^dag L - L^2) by {err:.3e}")
+    # the drift follows the pulse like everything else: the instantaneous angle is theta * F(t / a)
+    caps = capture(call, Inject(99, 0))
+    ts2, dt2 = grid(a, 300)
+    ang2 = theta * np.asarray(Fp(ts2 / a), dtype=float)
+    acc = quad_mat(lambda x: e1c ** 2 * (Ucr(x, phi).conj().T @ K(P1, I2) @ Ucr(x, phi))
+                   + e1t ** 2 * (Ucr(x, phi).conj().T @ K(I2, P1) @ Ucr(x, phi)), ang2, dt2)
+    err = float(np.abs(caps[0] - (-0.5 * acc)).max())
+    if not err <= 2e-4 * a * (e1c ** 2 + e1t ** 2) + 1e-12:
+        bad.append(f"CR drift differs from -1/2 int (L^dag L - L^2) along the pulse by {err:.3e} "
+                   f"(relative to a*(e1c^2+e1t^2): {err / (a * (e1c ** 2 + e1t ** 2) + 1e-300):.3f})")
     return bad
 
 
@@ -315,8 +317,7 @@ def main(ctx):
         "np.random.multivariate_normal realises the covariance it is handed; scipy.linalg.expm is the matrix exponential",
         "the integrator returns the pulse-shaped integrals (C12)"]
     ctx.assumptions += ["T2 <= 2 T1, T1, T2 > 0 (or 0 = off) for the dephasing strength to be real",
-                        "the CR drift is hard-coded for the constant pulse (drift_cr_closed_forms_partial; remark R1): for other "
-                        "pulses only generators and covariances are claimed for the CR gate"]
+                        "generators, covariances and drifts are claimed for every pulse shape, for the single-qubit and the CR gate"]
     seen = set()
     for kind, pd, args, bad in fails:
         key = (kind, bad[0].split(":")[0])
